@@ -84,6 +84,9 @@ def run_k(ctx, kres):
     v += k_suite(ctx, kres, "K17-files", [Trace("files%d" % i, gen.mutated_files_history(ctx.seed * 6029 + i, 5 if q else 8), "asan", env=env2) for i in range(n)], in_projection, sig_of=sig_of, direct=direct, shrink_budget=60)
     n = 30 if q else 600
     v += k_suite(ctx, kres, "K17-conf", [Trace("conf%d" % i, gen.conf_history(ctx.seed * 6037 + i), "asan", env=env2) for i in range(n)], lambda m: False, direct=direct, shrink_budget=60)
+    # unit level: the configuration loader on arbitrary file bytes against its Lean model (total function; Props/C17 theorems are about it)
+    from .. import pure
+    v += pure.run_group(ctx, kres, "K17-pure-confloader", "conf", 600 if q else 12000)
     kres["notes"].append("loader correspondence: %d searches compared with the Lean decoder's count of loadable files" % kres["hist"].get("loadcount:agree", 0))
     return v
 
